@@ -98,17 +98,17 @@ def Response.decode (bytes : Bytes) : Res Response :=
   | .readInputRegisters =>
     (idx bytes 1).bind fun bc =>
     if bc.toNat + 2 > bytes.length then .err .bufferSize else
-    (slice bytes 2 (2 + bc.toNat)).bind fun data =>
+    (slice bytes 2 (2 + bc.toNat / 2 * 2)).bind fun data =>
     .ok (.readInputRegisters { data := data, quantity := bc.toNat / 2 })
   | .readHoldingRegisters =>
     (idx bytes 1).bind fun bc =>
     if bc.toNat + 2 > bytes.length then .err .bufferSize else
-    (slice bytes 2 (2 + bc.toNat)).bind fun data =>
+    (slice bytes 2 (2 + bc.toNat / 2 * 2)).bind fun data =>
     .ok (.readHoldingRegisters { data := data, quantity := bc.toNat / 2 })
   | .readWriteMultipleRegisters =>
     (idx bytes 1).bind fun bc =>
     if bc.toNat + 2 > bytes.length then .err .bufferSize else
-    (slice bytes 2 (2 + bc.toNat)).bind fun data =>
+    (slice bytes 2 (2 + bc.toNat / 2 * 2)).bind fun data =>
     .ok (.readWriteMultipleRegisters { data := data, quantity := bc.toNat / 2 })
   | _ =>
     (sliceFrom bytes 1).bind fun d => .ok (.custom (FunctionCode.new fnCode) d)
